@@ -253,9 +253,11 @@ DtClause(P, tp, g) ==
     ELSE IF g.wire # tp.size THEN "C05:struct:wire-size"                   \* the codec built for the type takes exactly the structure's bytes
     ELSE ""
 
-UploadClause(lx, view, allprogs, fw) ==
+\* named = <<>>: controller scope (plus every program when allprogs); otherwise get_tag_list(program = named): the tags of
+\* that program only (what the program / task tables hold afterwards is not specified)
+UploadClauseSel(lx, view, allprogs, named, fw) ==
     LET P == lx.P
-        exp == ExpectedSyms(lx, allprogs)
+        exp == IF named = <<>> THEN ExpectedSyms(lx, allprogs) ELSE SelectSeq(P.symbols, LAMBDA s : UserVisible(s) /\ s.scope = named)
         expNames == {ScopedName(exp[i]) : i \in 1..Len(exp)}
         gotNames == {view.tags[i].name : i \in 1..Len(view.tags)}
         expRecs == {ExpTag(lx, exp[i]) : i \in 1..Len(exp)}
@@ -279,17 +281,20 @@ UploadClause(lx, view, allprogs, fw) ==
                    ScopedName(exp[j]) = view.tags[i].name /\ AccessText(lx, exp[j].access) # <<>> /\ view.tags[i].access # AccessText(lx, exp[j].access) THEN "C05:field:external_access"
        ELSE IF expDt \ gotDt # {} THEN "C05:struct:missing"
        ELSE IF \E i \in 1..Len(dtc) : dtc[i] # "" THEN dtc[CHOOSE i \in 1..Len(dtc) : dtc[i] # ""]
-       ELSE IF expProgs # gotProgs THEN "C05:programs"
-       ELSE IF {SubSeq(tasks[i].name, 6, Len(tasks[i].name)) : i \in 1..Len(tasks)} # {view.tasks[i] : i \in 1..Len(view.tasks)} THEN "C05:tasks"
+       ELSE IF named = <<>> /\ expProgs # gotProgs THEN "C05:programs"
+       ELSE IF named = <<>> /\ {SubSeq(tasks[i].name, 6, Len(tasks[i].name)) : i \in 1..Len(tasks)} # {view.tasks[i] : i \in 1..Len(view.tasks)} THEN "C05:tasks"
        ELSE IF view.json # 1 THEN "C05:json"
        ELSE ""
+
+UploadClause(lx, view, allprogs, fw) == UploadClauseSel(lx, view, allprogs, <<>>, fw)
 
 LxRet(lx, call, ev) ==
     IF ~lx.on THEN RetR("", lx)
     ELSE IF call.api = "read" THEN ReadRet(lx, call, ev, ev.size)
     ELSE IF call.api = "write" THEN WriteRet(lx, call, ev, ev.size)
     ELSE IF call.api \in {"open", "enter", "get_tag_list"} /\ "view" \in DOMAIN ev /\ ev.outcome = "value" /\ ev.faulted = 0
-         THEN RetR(UploadClause(lx, ev.view, IF call.api = "get_tag_list" THEN call.intent.allprogs = 1 ELSE lx.allprogs, lx.fw), lx)
+         THEN RetR(UploadClauseSel(lx, ev.view, IF call.api = "get_tag_list" THEN call.intent.allprogs = 1 ELSE lx.allprogs,
+                                   IF call.api = "get_tag_list" /\ "named" \in DOMAIN call.intent THEN call.intent.named ELSE <<>>, lx.fw), lx)
     ELSE IF call.api = "get_tag_list" /\ ev.outcome # "value" /\ ev.faulted = 0 /\ ~lx.upl.refused THEN RetR("C05:upload-failed", lx)
     ELSE RetR("", lx)
 ==============================================================================
